@@ -195,6 +195,10 @@ class RootContextBuilder:
         if spec is None or confirmed_module_name != module_name:
             error.error("unable to resolve relative starred import", culprit=node)
 
+        # Beyond the top-level package there is no module whose names could be added
+        if not module_name:
+            return
+
         self.context.add(
             make_import_symbol(
                 name="*",
